@@ -987,6 +987,32 @@ fn reference_mismatch(spec: &AnimSpec, model: &Model, observed: &Vals, out: &mut
             out.count("probe.reference_value_checked");
             let actual = oracle::get_prop(observed, prop);
             if !oracle::ref_matches(actual, rp, 1e-4) {
+                // A step function as easing is discontinuous: one rounding of the position
+                // inside the segment decides on which side of a step (or of the segment's end) the
+                // value is taken, and the property leaves that rounding open. The observed value
+                // may be the reference a few ulps of the time to either side (benign change b6-1:
+                // the segment fraction formed in f64 lands on the other side of a step at an
+                // instant that is a keyframe position to within an ulp).
+                let steps = m.parts.iter().any(|p| p.uses_easing(CUSTOM_STEPS));
+                if steps {
+                    let mut excused = false;
+                    for k in [1u32, 2, 4, 8] {
+                        for t2 in [f32::from_bits(t.to_bits().saturating_sub(k)), f32::from_bits(t.to_bits() + k)] {
+                            if t2.is_finite() && t2 >= 0.0 {
+                                let r2 = oracle::ref_eval(m, model.entry[model.cur].as_ref(), t2);
+                                if let Some(rp2) = &r2[prop] {
+                                    if rp2.near_boundary || oracle::ref_matches(actual, rp2, 1e-4) {
+                                        excused = true;
+                                    }
+                                }
+                            }
+                        }
+                    }
+                    if excused {
+                        out.count("probe.reference_matched_on_the_other_side_of_a_step");
+                        continue;
+                    }
+                }
                 return Some(format!(
                     "property {} is {actual:?}; the documented timeline semantics give {} for state {} at time {t}s started from {}",
                     PROP_NAMES[prop],
